@@ -193,6 +193,21 @@ def one_history(ctx: Ctx, out: Outcome, key: str, h: int, nsteps: int):
     tie = S.IndexTie()
     obs = [mon, TieObserver(out, tie, mon)]
     model = S.run_history(ctx, out, key, nsteps, obs, hist_id=h)
+    # viewpoint activation (writes a viewpointReferences element into the .afm, whose ids are not indexed)
+    if h % 2 == 1:
+        import objops
+        before = ol.raw_scan(model._loader)
+        try:
+            model.activate_viewpoint("org.polarsys.capella.vp.verif", "1.0.0")
+            outcome = "ok"
+        except Exception as e:  # noqa: BLE001
+            outcome = type(e).__name__
+        after = ol.raw_scan(model._loader)
+        rec = S.StepRecord(10**6 - 2, objops.Step("activate_viewpoint", None, {}, lambda: None), outcome, before, after)
+        out.hit(f"op.activate_viewpoint.{outcome}")
+        tie.apply((key, "activate_viewpoint"), S.diff_ops(S.scan_rows(before), S.scan_rows(after), tie.frag_index))
+        mon.step(rec, model)
+        tie.dump((key, "after-activate"), model._loader)
     # make sure a namespace-adding creation happened before the save in some histories
     if h % 2 == 0:
         import objops
